@@ -83,8 +83,8 @@ func forEachCase(ep *EP, thorough bool, fn caseFn) int {
 				e.emit(buf, "byte")
 			}
 		}
-		// every position x all 256 values (quick: seeds up to 96 bytes; thorough: all seeds)
-		if thorough || L <= 96 {
+		// every position x all 256 values (quick: seeds up to 160 bytes; thorough: all seeds)
+		if thorough || L <= 160 {
 			for p := 0; p < L && !e.stop; p++ {
 				for v := 0; v < 256; v++ {
 					if byte(v) == s[p] {
@@ -125,16 +125,36 @@ func forEachCase(ep *EP, thorough bool, fn caseFn) int {
 				e.emit(buf, "truncate+byte")
 			}
 		}
-		if thorough && L <= ep.pairMax() {
-			// every pair of positions x {00,FF}^2
+		pairVals := []byte{0x00, 0xFF}
+		if thorough {
+			pairVals = []byte{0x00, 0xFF, 0x80}
+		}
+		if (thorough && L <= ep.pairMax()) || L <= 160 {
+			// every pair of positions x {00,FF}^2 (quick: seeds up to 160 bytes; thorough: {00,FF,80}^2)
 			for p := 0; p < L && !e.stop; p++ {
 				for q := p + 1; q < L && !e.stop; q++ {
-					for _, a := range []byte{0x00, 0xFF} {
-						for _, b := range []byte{0x00, 0xFF} {
+					for _, a := range pairVals {
+						for _, b := range pairVals {
 							buf = append(buf[:0], s...)
 							buf[p], buf[q] = a, b
 							e.emit(buf, "pair")
 						}
+					}
+				}
+			}
+		}
+		if thorough && L <= ep.pairMax() {
+			// every truncation x every remaining position x {00,03,05,FF}: a corrupted field in a
+			// message that also ends early (format bytes 03/05 select the SMB_STRING layouts)
+			for n := 2; n < L && !e.stop; n++ {
+				for p := 0; p < n-1 && !e.stop; p++ {
+					for _, v := range []byte{0x00, 0x03, 0x05, 0xFF} {
+						if s[p] == v {
+							continue
+						}
+						buf = append(buf[:0], s[:n]...)
+						buf[p] = v
+						e.emit(buf, "truncate+anybyte")
 					}
 				}
 			}
